@@ -6,7 +6,7 @@ import itertools
 from fractions import Fraction
 
 from ..absint import FuncV, Interp, ObjV, VecV, State
-from ..forms import Const, Form, TupleV, fpow, mk_attr, mk_fn
+from ..forms import Const, Form, TupleV, fpow, mk_attr, mk_fn, atom_children, subst_value
 from ..rules import PI, S, find_raise_guards, names_in, check_late_binding
 from ..srcmodel import src_of, norm_src
 
@@ -23,6 +23,7 @@ EXPLANATION = (
     "R_load^2 and EDFA's P_ase equal the utils terms under B<->fs/2, BW_opt<->fs. C13.7: wrappers are np.vectorize'd. "
     "C13.9: the receiver-model helpers accept the inclusive edge G = 0 dB as they accept G = 20 dB (differential on the set of raising "
     "exits: a presence test written as a truthiness test adds one). Not decided: numerical agreement/monotonicity/quad accuracy.")
+EXPLANATION += (" Added after the audit wave: C13.5 the threshold returned by optimum_threshold equals the closed-form root as a rational function (difference zero after clearing denominators: any rearrangement is accepted) and no sum it divides by vanishes identically for S1 = S0 (equal variances are the midpoint case of the statement); C13.3 a spelling of `decision` that the validation of ppm.BER_analizer lets through ('Hard', 'SOFT') is refused with ValueError or computed like its lower-case form.")
 TRUSTED = ["scipy.special.erfc, scipy.integrate.quad semantics", "numpy.vectorize/linspace/argmin", "scipy.constants h, k, e, c", "utils.idb/idbm/Q (C19)"]
 
 H_ = Form.atom(("c", "scipy.constants.h"))
@@ -397,10 +398,24 @@ def rule_error_probabilities(ctx):
     fi = pkg.func("ppm.BER_analizer")
     from ..forms import DictV
     factor = S("M") / (2 * (S("M") - 1))
-    for dec in ("hard", "soft"):
+    lower_case = {}
+    for dec in ("hard", "soft", "Hard", "SOFT"):
         it = Interp(pkg, assumptions={"mode": "estimator", "M": ("inst", "int")}, param_values={"kwargs": DictV([(Const("eye_obj"), _eye()), (Const("M"), S("M")), (Const("decision"), Const(dec))])})   # the order is an integer (M in {2,...,256})
         outs = it.run(fi)
         rets = [o for o in outs if o.kind == "return"]
+        if dec != dec.lower():
+            # a spelling of the decision is either refused by the validation or computed like its lower-case form: one that passes
+            # the validation and then matches no branch of the dispatch leaves the function without a result
+            raises = [o for o in outs if o.kind == "raise"]
+            refused = not rets and raises and raises[-1].exc == "ValueError"
+            same = len(rets) == 1 and isinstance(rets[0].value, Form) and rets[0].value == lower_case.get(dec.lower())
+            ctx.check("C13.3", bool(refused or same), fi, (rets[0].node if rets else raises[-1].node if raises else fi.node), f"ppm.BER_analizer('estimator', decision={dec!r})",
+                      "refused with ValueError or computed like the lower-case spelling",
+                      f"decision={dec!r} passes the validation (which compares decision.lower()) but the dispatch compares the raw string: no branch computes the symbol error "
+                      f"({'returns ' + repr(rets[0].value)[:120] if rets else 'ends with ' + str(raises[-1].exc if raises else None)}) - UnboundLocalError instead of the {dec.lower()}-decision estimate")
+            continue
+        if len(rets) == 1:
+            lower_case[dec] = rets[0].value
         if len(rets) != 1 or not isinstance(rets[0].value, Form):
             ctx.unknown("C13.3", fi, fi.node, f"ppm.BER_analizer('estimator', {dec})", f"{len(rets)} return paths")
             continue
@@ -568,6 +583,38 @@ def _threshold_atom(it):
     return None
 
 
+def _clear_denominators(f, limit=12):
+    """multiply a form by the sums it divides by until no negative integer power of a sum is left (the product expands and cancels)"""
+    for _ in range(limit):
+        worst = None
+        for m in f.terms:
+            for a, e in m:
+                if a[0] == "grp" and e.denominator == 1 and e < 0 and (worst is None or e < worst[1]):
+                    worst = (a, e)
+        if worst is None:
+            return f
+        f = f * Form({((worst[0], -worst[1]),): (Fraction(1), Fraction(0))})
+    return None
+
+
+def _denominators(f):
+    """the sums a form divides by (negative powers of a group), nested ones included"""
+    out = []
+    def walk(v):
+        if isinstance(v, Form):
+            for m in v.terms:
+                for a, e in m:
+                    if a[0] == "grp":
+                        if e < 0:
+                            out.append(a[1])
+                        walk(a[1])
+                    else:
+                        for ch in atom_children(a):
+                            walk(ch)
+    walk(f)
+    return out
+
+
 def rule_optimum_threshold(ctx):
     pkg = ctx.pkg
     fi = pkg.func("utils.optimum_threshold")
@@ -583,8 +630,21 @@ def rule_optimum_threshold(ctx):
         s0, s1 = fpow(S0, HALF), fpow(S1, HALF)
         disc = fpow(mu1 - mu0, 2) + 2 * (S1 - S0) * mk_fn("log", [s1 / s0 * (M - 1)])
         want = (mu0 * S1 - mu1 * S0 + s1 * s0 * fpow(disc, HALF)) / (S1 - S0)
-        ctx.check("C13.5", rets[0].value == want, fi, rets[0].node, f"optimum_threshold [{modn}]", "root of (M-1)*N(r;mu0,S0) = N(r;mu1,S1)",
-                  f"returns {rets[0].value!r}, closed form is {want!r}"[:700])
+        got = rets[0].value
+        same = got == want
+        if not same:
+            # any rearrangement of the same root as a quotient: the difference vanishes once the denominators are cleared
+            diff = _clear_denominators(got - want)
+            same = diff is not None and diff.is_zero()
+        ctx.check("C13.5", same, fi, rets[0].node, f"optimum_threshold [{modn}]", "root of (M-1)*N(r;mu0,S0) = N(r;mu1,S1)",
+                  f"returns {got!r}, closed form is {want!r}"[:700])
+        # equal variances are an ordinary input (the threshold is then the midpoint + S*log(M-1)/(mu1-mu0)): no sum the
+        # result divides by may vanish identically for S1 = S0
+        def eq(a):
+            return S("S0") if a == ("sym", "S1") else None
+        bad = [d for d in _denominators(got) if subst_value(d, eq).is_zero()]
+        ctx.check("C13.5", not bad, fi, rets[0].node, f"optimum_threshold [{modn}]: defined for S0 == S1", "no divisor vanishes for equal variances",
+                  f"the returned expression divides by {bad[0]!r}, which is zero for S1 = S0: equal variances (the midpoint case of the statement) give ZeroDivisionError / nan"[:500] if bad else "")
 
 
 def rule_device_counterparts(ctx):
